@@ -25,7 +25,9 @@ package provider
 //@ loop 0 step [other-entries-are-skipped] imp(!confutil.IsChosenCase(result_of(p.Decoder.Scan, 0).Tag(), p.Config.ChosenCases), sent(p.Sink) == iter(sent(p.Sink)))
 //@ at send p.Sink assert [the-scanned-entry-itself] value == result_of(p.Decoder.Scan, 0)
 //@ ensures [a-cancelled-run-ends-with-the-plain-cancellation] imp(calls(ctx.Err) > 0 && result_of(ctx.Err, 0) == context.Canceled, result == context.Canceled)
-//@ ensures [bounds-reached-is-a-clean-end] imp(calls(p.Decoder.Scan) > 0 && (result_of(p.Decoder.Scan, 1) == decoders.ErrAmmoLimit || result_of(p.Decoder.Scan, 1) == decoders.ErrPassLimit) && !done(ctx), result == nil)
+// (preload reports "no ammo" when the filter keeps nothing: streaming ends the same way once the passes are over)
+//@ ensures [nothing-chosen-ends-like-preload] imp(len(p.Config.ChosenCases) > 0 && sent(p.Sink) == sent0 && calls(p.Decoder.Scan) > 0 && (result_of(p.Decoder.Scan, 1) == decoders.ErrPassLimit || result_of(p.Decoder.Scan, 1) == decoders.ErrAmmoLimit), result == decoders.ErrNoAmmo)
+//@ ensures [bounds-reached-is-a-clean-end] imp(calls(p.Decoder.Scan) > 0 && (result_of(p.Decoder.Scan, 1) == decoders.ErrAmmoLimit || result_of(p.Decoder.Scan, 1) == decoders.ErrPassLimit) && !done(ctx) && !(len(p.Config.ChosenCases) > 0 && sent(p.Sink) == sent0), result == nil)
 //@ ensures [decoder-failure-is-reported] imp(result == nil, (len(p.Config.ChosenCases) > 0 && p.Config.Limit != 0 && sent(p.Sink) - sent0 == p.Config.Limit) || (calls(p.Decoder.Scan) > 0 && (errors.Is(result_of(p.Decoder.Scan, 1), decoders.ErrAmmoLimit) || errors.Is(result_of(p.Decoder.Scan, 1), decoders.ErrPassLimit))))
 //@ modifies chanSent[p.Sink], ev(scan_ok), scannedBy[p.Decoder]
 
